@@ -246,6 +246,19 @@ def _eval(batch_file: str, out_file: str) -> int:
                 for kind, msg in interpret.compare_spec(exp, ls, f"{m.module}:{cname}"):
                     bad(kind, f"field-{kind}", f"[{origin}] {msg}", {"definition": clean, "version": v, "class": cname})
                     ok_classes = False
+                # the declared Python type: exactly the kio type that stands for the Kafka type (the codec goes by kafka_type, so a wider or
+                # narrower annotation changes no byte), or an entity type deriving directly from it
+                from .structure import _expected_pytype
+
+                for fs_ in ls.fields:
+                    if fs_.kind != "prim":
+                        continue
+                    want_py = _expected_pytype(fs_.ktype)
+                    got_py = fs_.pytype
+                    if not (got_py is want_py or (isinstance(got_py, type) and got_py.__module__ == "kio.schema.types" and want_py in got_py.__bases__)):
+                        bad("pytype", f"pytype:{fs_.ktype}", f"[{origin}] {m.module}:{cname}.{fs_.name}: declared Python type {getattr(got_py, '__name__', got_py)!r} for kafka type "
+                            f"{fs_.ktype} (expected {want_py.__name__})", {"definition": clean, "version": v, "class": cname})
+                        ok_classes = False
                 want_type = m.type if cname == m.top else "nested"
                 cv = {"__type__": cls.__type__.name, "__version__": int(cls.__version__), "__flexible__": bool(cls.__flexible__)}
                 wv = {"__type__": want_type, "__version__": v, "__flexible__": m.flexible}
